@@ -8,29 +8,45 @@
 (*     predicts like it.                                                                                         *)
 (*   Impl layer (how the present code lays the file out): tables present and their row counts after every step   *)
 (*     equal db[path] of the variant (DropTables, SaveAll) - this identifies the implemented variant.            *)
-(* Events: Reset{h} | Write{p,k,s,tag,resc,sh{field:[[dims]..]}} | Mut{p,k,tag,mut} | Tables{p,t{table:rows}} |     *)
+(* Events: Reset{h} | Write{p,k,s,tag,resc,re,kap,prm[..],sh{field:[[dims]..]}} | Mut{p,k,tag,mut} | Tables{p,t{table:rows}} | *)
 (*         Read{p,k,rc,fs[field..]} | Field{p,k,f,d[[dims]..],c[[tag,err]..]} | Pred{p,k,c[[tag,err]..]} | Crash   *)
 (*   c lists, for every model of that kind written earlier in the history (tag = its step) whose dims equal the   *)
 (*   read-back ones, err = max |read-written|/max(1,|written|) in units of 1e-18 (saturating at 2e9); WHICH of     *)
 (*   them is the most recent write to that path is decided here, from lastw, not by the harness.                  *)
+(*   Write.prm: the fit parameters of a profile model (size class >= 4; <<>> for the abstract classes): the Impl  *)
+(*   layer insists that the model written has the shapes FitShape(k, prm) the generator asked for.  Write.re = 1:  *)
+(*   the model made at step `tag` is written once more (Rewrite); the trace keeps the models made in `ops`.       *)
+(*   Read.x / Field.x / Crash.x = 1: a Read into a model object that an earlier Read filled (OUTSIDE the statement of C16):   *)
+(*   judged against the exact model of what io.c does with a used destination (Impl) and, with XProp = TRUE, against ReadsLast  *)
+(*   (a rejection there is an EXTRA-FINDING).                                                                                   *)
+(*   Write.kap = ceil(max_j |mean_j| / sdev_j) of the training data (input class K3): the prediction bound of a    *)
+(*   profile model scales with it (PredFactor).                                                                   *)
 EXTENDS Io, TraceBase
-CONSTANTS PropOff, ImplOff, Tol, TolPred
+CONSTANTS PropOff, ImplOff, Tol, TolPred, XProp
 VARIABLE l
-tvars == <<db, ops, hist, lastw, lastkind, lastread, l>>
+tvars == <<db, ops, hist, lastw, lastkind, lastread, held, l>>
 Ev == Tr[l]
-Step == l' = l + 1 /\ UNCHANGED <<ops, hist, lastread>>
+Step == l' = l + 1 /\ UNCHANGED <<ops, hist, lastread, held>>
 
 TInit == l = 1 /\ Init
 
-TReset == /\ l <= Len(Tr) /\ Ev.e = "Reset" /\ Step
-          /\ db' = [p \in Paths |-> EmptyFile]
+TReset == /\ l <= Len(Tr) /\ Ev.e = "Reset" /\ l' = l + 1 /\ UNCHANGED hist
+          /\ db' = [p \in Paths |-> EmptyFile] /\ ops' = <<>> /\ lastread' = NoRead /\ held' = [k \in Kinds |-> NoObject]
           /\ lastw' = [p \in Paths |-> [k \in Kinds |-> NoWrite]] /\ lastkind' = [p \in Paths |-> "none"]
 
-TWrite == /\ l <= Len(Tr) /\ Ev.e = "Write" /\ Step
+\* Impl: a profile model has the shapes the fit parameters imply (pca.c / cpca.c / pls.c and the harness's filling of the validation side)
+\* (IF, not a disjunction: inside an action TLC explores every disjunct, and FitShape is undefined for the empty parameter vector)
+ImplShape(ev) == IF ImplOff \/ ev.prm = <<>> THEN TRUE ELSE ev.sh = FitShape(ev.k, ev.prm)
+\* Prop (writing never modifies the in-memory model): a model written once more still has the kind and shapes it was made with
+PropRewrite(ev) == PropOff \/ \E i \in DOMAIN ops : ops[i].tag = ev.tag /\ ops[i].k = ev.k /\ ops[i].sh = ev.sh
+TWrite == /\ l <= Len(Tr) /\ Ev.e = "Write" /\ l' = l + 1 /\ UNCHANGED <<hist, lastread, held>>
           /\ Ev.p \in Paths /\ Ev.k \in Kinds /\ DOMAIN Ev.sh = ModelFields(Ev.k)
           /\ db' = [db EXCEPT ![Ev.p] = FileWrite(@, Ev.k, Ev.sh, Ev.tag)]
-          /\ lastw' = [lastw EXCEPT ![Ev.p][Ev.k] = [sh |-> Ev.sh, tag |-> Ev.tag, resc |-> Ev.resc]]
+          /\ lastw' = [lastw EXCEPT ![Ev.p][Ev.k] = [sh |-> Ev.sh, tag |-> Ev.tag, resc |-> Ev.resc, kap |-> Ev.kap, prof |-> Ev.prm # <<>>]]
           /\ lastkind' = [lastkind EXCEPT ![Ev.p] = Ev.k]
+          /\ ImplShape(Ev)
+          /\ IF Ev.re = 0 THEN ops' = Append(ops, [tag |-> Ev.tag, k |-> Ev.k, sh |-> Ev.sh])
+                          ELSE ops' = ops /\ PropRewrite(Ev)
 
 \* writing never modifies the in-memory model (checksum over dims and bit patterns before/after the Write just logged)
 PropMut(ev) == PropOff \/ (ev.mut = 0 /\ ev.tag = lastw[ev.p][ev.k].tag)
@@ -42,11 +58,23 @@ ImplTables(ev) == ImplOff \/ ev.t = RowCounts(db[ev.p])
 TTables == /\ l <= Len(Tr) /\ Ev.e = "Tables" /\ Step /\ UNCHANGED <<db, lastw, lastkind>>
            /\ ImplTables(Ev)
 
-\* a Read of the kind most recently written to the path returned normally and reports every field of the model
-TRead == /\ l <= Len(Tr) /\ Ev.e = "Read" /\ Step /\ UNCHANGED <<db, lastw, lastkind>>
+\* a Read of the kind most recently written to the path returned normally and reports every field of the model.  keep = 1: the object
+\* filled here is handed to Read again later in the history: what it holds is computed from the model of the file (variant DropTables, SaveAll)
+TRead == /\ l <= Len(Tr) /\ Ev.e = "Read" /\ Ev.x = 0 /\ l' = l + 1 /\ UNCHANGED <<db, lastw, lastkind, ops, hist>>
          /\ lastkind[Ev.p] = Ev.k
          /\ {Ev.fs[i] : i \in DOMAIN Ev.fs} = ModelFields(Ev.k)
          /\ (PropOff \/ Ev.rc = 0)
+         /\ lastread' = NoRead
+         /\ held' = IF Ev.keep = 1 THEN [held EXCEPT ![Ev.k] = [valid |-> TRUE, res |-> FileRead(db[Ev.p], Ev.k)]] ELSE held
+
+\* OUTSIDE the statement of C16 (x = 1): the object filled by the most recent Read of that kind is read into again; lastread = what the exact
+\* model of io.c (variant Reuse) says it now holds
+TReRead == /\ l <= Len(Tr) /\ Ev.e = "Read" /\ Ev.x = 1 /\ l' = l + 1 /\ UNCHANGED <<db, lastw, lastkind, ops, hist>>
+           /\ lastkind[Ev.p] = Ev.k /\ held[Ev.k].valid
+           /\ {Ev.fs[i] : i \in DOMAIN Ev.fs} = ModelFields(Ev.k)
+           /\ LET res == FileReadInto(db[Ev.p], Ev.k, held[Ev.k].res) IN
+                /\ lastread' = [valid |-> TRUE, p |-> Ev.p, k |-> Ev.k, res |-> res, reused |-> TRUE]
+                /\ held' = [held EXCEPT ![Ev.k] = [valid |-> TRUE, res |-> res]]
 
 \* ReadsLast, field by field
 PropField(ev) == LET w == lastw[ev.p][ev.k] IN
@@ -54,23 +82,43 @@ PropField(ev) == LET w == lastw[ev.p][ev.k] IN
                  \/ /\ w.tag > 0
                     /\ ev.d = w.sh[ev.f]
                     /\ NCells(w.sh[ev.f]) > 0 => \E i \in DOMAIN ev.c : ev.c[i][1] = w.tag /\ ev.c[i][2] <= Tol
+\* a field of a used object read into again: Impl = the dims the exact model predicts (nothing is predicted where the C code runs out of
+\* bounds); XProp = TRUE additionally holds it to ReadsLast (what one would want; a rejection is reported as EXTRA-FINDING, never a verdict)
+XImplField(ev) == IF ImplOff \/ ~lastread.valid THEN ImplOff ELSE (~lastread.res[ev.f].ok \/ ev.d = lastread.res[ev.f].dims)
+XPropField(ev) == LET w == lastw[ev.p][ev.k] IN
+                  IF ~XProp THEN TRUE
+                  ELSE /\ w.tag > 0 /\ ev.d = w.sh[ev.f]
+                       /\ NCells(w.sh[ev.f]) > 0 => \E i \in DOMAIN ev.c : ev.c[i][1] = w.tag /\ ev.c[i][2] <= Tol
 TField == /\ l <= Len(Tr) /\ Ev.e = "Field" /\ Step /\ UNCHANGED <<db, lastw, lastkind>>
           /\ Ev.f \in ModelFields(Ev.k)
-          /\ PropField(Ev)
+          /\ IF Ev.x = 0 THEN PropField(Ev) ELSE XImplField(Ev) /\ XPropField(Ev)
 
-\* the read-back model predicts like the saved one (judged for models that were not rescaled, DESIGN C16)
+\* the read-back model predicts like the saved one (judged for models that were not rescaled, DESIGN C16).  Models of the abstract size
+\* classes (moderate data, at most 5 variables): flat bound TolPred.  Profile models: numbers that agree to 1e-15 * max(1,|v|) move a
+\* prediction (sum over the variables of (x - mean) / sdev * loading) by about 1e-15 * kap * sqrt(nvars), kap = max |mean| / sdev of the
+\* training data: the bound is TolPred * (1 + kap * ceil(sqrt(nvars)) / 100); it is applied while it stays below the saturation of the
+\* logged errors (factor <= MaxPredFactor), beyond that the model is judged on its numbers only
+RootCeil(n) == CHOOSE r \in 0..n : r * r >= n /\ (r = 0 \/ (r - 1) * (r - 1) < n)
+RECURSIVE SumRows(_)
+SumRows(sh) == IF sh = <<>> THEN 0 ELSE sh[1][1] + SumRows(Tail(sh))
+NVars(k, sh) == CASE k = "PCA" -> sh["loadings"][1][1] [] k = "PLS" -> sh["xloadings"][1][1] [] k = "CPCA" -> SumRows(sh["block_loadings"])
+MaxPredFactor == 2000
+PredFactor(k, w) == IF ~w.prof THEN 1 ELSE 1 + (w.kap * RootCeil(NVars(k, w.sh))) \div 100
+PredJudged(k, w) == w.resc = 0 /\ PredFactor(k, w) <= MaxPredFactor
 PropPred(ev) == LET w == lastw[ev.p][ev.k] IN
                 \/ PropOff
                 \/ /\ w.tag > 0
-                   /\ w.resc = 0 => \E i \in DOMAIN ev.c : ev.c[i][1] = w.tag /\ ev.c[i][2] <= TolPred
+                   /\ PredJudged(ev.k, w) => \E i \in DOMAIN ev.c : ev.c[i][1] = w.tag /\ ev.c[i][2] <= TolPred * PredFactor(ev.k, w)
 TPred == /\ l <= Len(Tr) /\ Ev.e = "Pred" /\ Step /\ UNCHANGED <<db, lastw, lastkind>>
          /\ PropPred(Ev)
 
-\* the child process died: never acceptable to the property; skipped only when the Prop layer is off (variant inference)
+\* the child process died: never acceptable to the property; skipped only when the Prop layer is off (variant inference).  While reading
+\* into a used object (x = 1): expected by the exact model where a field runs out of bounds, never acceptable under XProp
+XCrashExpected(ev) == held[ev.k].valid /\ \E f \in ModelFields(ev.k) : ~FileReadInto(db[ev.p], ev.k, held[ev.k].res)[f].ok
 TCrash == /\ l <= Len(Tr) /\ Ev.e = "Crash" /\ Step /\ UNCHANGED <<db, lastw, lastkind>>
-          /\ PropOff
+          /\ IF Ev.x = 0 THEN PropOff ELSE (~XProp /\ (ImplOff \/ XCrashExpected(Ev)))
 
-TNext == TReset \/ TWrite \/ TMut \/ TTables \/ TRead \/ TField \/ TPred \/ TCrash
+TNext == TReset \/ TWrite \/ TMut \/ TTables \/ TRead \/ TReRead \/ TField \/ TPred \/ TCrash
 TSpec == TInit /\ [][TNext]_tvars
 TraceAccepted == Accepted
 Diag == ShowCursor(l)
